@@ -65,7 +65,17 @@ pub mod tn {
         }
     }
     /// `TensorData::new(values, shape)`: row-major values with a shape (burn panics unless the element count matches)
-    pub struct TensorData { pub ghost flat: Seq<Fl>, pub ghost shape: Seq<usize>, pub ghost is_f32: bool }
+    pub struct TensorData { pub ghost flat: Seq<Fl>, pub ghost shape: Seq<usize>, pub ghost is_f32: bool, pub ghost src: TKey }
+    /// an opaque name for "the content of this tensor" / "that content converted to f32" (used only to state that a summary is a
+    /// function of the sample it is computed from)
+    #[verifier::external_body]
+    pub struct TKey { _p: u8 }
+    pub uninterp spec fn tkey<B, const D: usize, K>(t: Tensor<B, D, K>) -> TKey;
+    pub uninterp spec fn key32(k: TKey) -> TKey;
+    pub uninterp spec fn slice_key<E>(s: Seq<E>) -> TKey;
+    /// the shape of a rank-3 tensor
+    pub uninterp spec fn tdim3<B, const D: usize, K>(t: Tensor<B, D, K>) -> (int, int, int);
+    impl ElemTag for f32 { open spec fn tag_f32() -> bool { true } }
     impl TensorData {
         /// `iter::<E>()`: the elements converted to E, in order (never fails); only the count is tracked
         #[verifier::external_body]
@@ -73,12 +83,13 @@ pub mod tn {
         /// `as_slice::<E>()`: Err(TypeMismatch) unless E is the stored element type
         #[verifier::external_body]
         pub fn as_slice<E: ElemTag>(&self) -> (r: Result<&[E], DataError>)
-            ensures (r is Ok) == (E::tag_f32() == self.is_f32), r is Ok ==> r->Ok_0@.len() == self.flat.len()
+            ensures (r is Ok) == (E::tag_f32() == self.is_f32), r is Ok ==> r->Ok_0@.len() == self.flat.len() && slice_key(r->Ok_0@) == self.src
         { unimplemented!() }
         /// `convert::<E>()`: the same values converted to element type E
         #[verifier::external_body]
         pub fn convert<E: ElemTag>(self) -> (r: TensorData)
-            ensures r.is_f32 == E::tag_f32(), r.flat.len() == self.flat.len(), r.shape == self.shape
+            ensures r.is_f32 == E::tag_f32(), r.flat.len() == self.flat.len(), r.shape == self.shape,
+                r.src == (if E::tag_f32() && !self.is_f32 { key32(self.src) } else { self.src })
         { unimplemented!() }
         #[verifier::external_body]
         pub fn new<const D: usize>(values: Vec<Fl>, shape: [usize; D]) -> (r: TensorData)
@@ -162,14 +173,16 @@ pub mod tn {
         { unimplemented!() }
         #[verifier::external_body]
         pub fn dims(&self) -> (r: [usize; D])
-            ensures D == 2 ==> r@[0] == tdim2(*self).0 && r@[1] == tdim2(*self).1, D == 1 ==> v1(*self).len() == r@[0]
+            ensures D == 2 ==> r@[0] == tdim2(*self).0 && r@[1] == tdim2(*self).1, D == 1 ==> v1(*self).len() == r@[0],
+                D == 3 ==> r@[0] == tdim3(*self).0 && r@[1] == tdim3(*self).1 && r@[2] == tdim3(*self).2
         { unimplemented!() }
         #[verifier::external_body]
         pub fn clone(&self) -> (r: Self) ensures r == *self { unimplemented!() }
         /// `to_data()`: the values in the backend's float element type, row-major
         #[verifier::external_body]
         pub fn to_data(&self) -> (r: TensorData)
-            ensures r.is_f32 == B::float_is_f32(), D == 2 ==> r.flat.len() == tdim2(*self).0 * tdim2(*self).1, D == 1 ==> r.flat.len() == v1(*self).len()
+            ensures r.is_f32 == B::float_is_f32(), D == 2 ==> r.flat.len() == tdim2(*self).0 * tdim2(*self).1, D == 1 ==> r.flat.len() == v1(*self).len(),
+                D == 3 ==> r.flat.len() == tdim3(*self).0 * tdim3(*self).1 * tdim3(*self).2, r.src == tkey(*self)
         { unimplemented!() }
         /// `from_data(TensorData::new(values, [n, d]), dev)` (row-major) or `from_data(slice, dev)` (1-D)
         #[verifier::external_body]
